@@ -180,6 +180,9 @@ func (e *Eval) evalLoopBest(fr *frame, h *ssa.BasicBlock, body map[*ssa.BasicBlo
 	if e.quoteItemsLoop(fr, h, body, in, done) {
 		return true
 	}
+	if e.filterNonEmptyLoop(fr, h, body, in, done) {
+		return true
+	}
 	if !fr.containsInner[h] {
 		snap := e.snapshotLoop(fr, done)
 		clean := e.evalLoop(fr, h, body, in, done)
